@@ -99,6 +99,27 @@ def build_fin(r, cid, tier):
                      bool(sizes) and ns >= 2)
 
 
+def many_tiny_then_fin(r, cid, nframes, scheme, sibling):
+    """hundreds of complete tiny frames (optionally interleaved with a sibling stream's) and then the FIN reach the receiver in
+    ONE transport read, after which the sender is silent: the reader gets every byte and then end-of-stream, without any
+    further transport activity (seed C08-6: a per-pass frame budget in the receive loop strands the tail and the FIN)"""
+    ops = ["O:c", "O:c", "X:c:-", "N:s", "T:s", "T:c"]
+    sizes = [r.choice([1, 1, 1, 2, 3]) for _ in range(nframes)]
+    sib = 0
+    for k in sizes:
+        ops.append("W:c:1:%d" % k)
+        if sibling and r.random() < 0.3:
+            ops.append("W:c:2:1")
+            sib += 1
+    ops.append("G:c:3:1:-")                    # the FIN, right behind the data
+    ops.append("X:c:-")                        # everything written so far, as one chunk
+    ops += G.drain("s", 1, 0, [4096], nframes + 3)
+    if sib:
+        ops += G.drain("s", 2, 0, [4096], sib + 2)
+    ops += ["W:s:1:5", "X:s:-"] + G.drain("c", 1, 0, [100], 2) + ["T:s", "T:c"]
+    return G.ss_case(cid, scheme, False, ops, "many-tiny-then-fin-one-read", True)
+
+
 def build_shutdown(r, cid, w):
     """the application shuts the write side of a stream down (AsyncWrite::poll_shutdown); needs the exclusively
     owned object, i.e. the peer's FIN for that id arrived first"""
@@ -122,6 +143,8 @@ def gen_cases(tier, seed):
         cs.append(build_fin(r, "f%d" % i, tier))
     for i in range(8 if tier == "quick" else 80):
         cs.append(build_shutdown(r, "h%d" % i, "cs"[i % 2]))
+    for j, nf in enumerate([70, 130, 300, 500] if tier == "quick" else [65, 70, 100, 130, 200, 300, 500, 1000]):
+        cs.append(many_tiny_then_fin(r, "mtf%d" % j, nf, (2, 4)[j % 2], j % 2 == 1))
     # real-time loopback: the four call sites of the known finding, on every run
     k = 0
     for rep in range(1 if tier == "quick" else 4):
